@@ -428,7 +428,7 @@ class Closed3(Closed):
 PRE_STATES = {"fresh": [], "connected": ["CONNECT"], "registered": ["CONNECT", "REG_A", "REG_B"], "closed": ["CONNECT", "REG_A", "CLOSE"]}
 
 
-def corrupted_variants():
+def corrupted_variants(two_bit=False):
     out = []
     for kind, d in DG.items():
         if kind in MALFORMED:
@@ -439,6 +439,14 @@ def corrupted_variants():
             b = bytearray(d)
             b[bit // 8] ^= 0x80 >> (bit % 8)
             out.append((kind, "flip", bit, bytes(b)))
+        if two_bit:
+            nb = len(d) * 8
+            for b1 in range(nb):
+                for b2 in range(b1 + 1, nb):
+                    b = bytearray(d)
+                    b[b1 // 8] ^= 0x80 >> (b1 % 8)
+                    b[b2 // 8] ^= 0x80 >> (b2 % 8)
+                    out.append((kind, "flip2", b1 * 1000 + b2, bytes(b)))
     return out
 
 
@@ -511,9 +519,9 @@ def run(only=None):
     ]
     thorough = rep.thorough()
     if not only or "single_handler_bfs" in only:
-        s = rep.sub("single_handler_bfs", rule=f"BFS, {len(DG)} datagram classes, inits sn in (0,0xFFFD,0xFFFE) x connected in (F,T), depth {8 if thorough else 5}; "
+        s = rep.sub("single_handler_bfs", rule=f"BFS, {len(DG)} datagram classes, inits sn in (0,0xFFFD,0xFFFE) x connected in (F,T), depth {12 if thorough else 5}; "
                                                "non-trivial = distinct (class, output types, return) observations")
-        res = explore.bfs(Single, max_depth=8 if thorough else 5, log=rep.log)
+        res = explore.bfs(Single, max_depth=12 if thorough else 5, log=rep.log)
         explore.feed(s, res, WHAT, name="single", rep=rep)
         s.extra["alphabet"] = {k: v.hex() for k, v in DG.items()}
         s.done()
@@ -529,10 +537,10 @@ def run(only=None):
         s.done()
         rep.bounds["closed_two_handlers"] = {"depth_completed": res.depth_completed, "states": res.states, "fixpoint": res.exhausted}
     if not only or "malformed_depth1" in only:
-        s = rep.sub("malformed_depth1", rule="every prefix truncation and every single-bit flip of every well-formed alphabet datagram, delivered in 4 reachable states; "
+        s = rep.sub("malformed_depth1", rule="every prefix truncation and every single-bit flip (thorough: and every two-bit flip) of every well-formed alphabet datagram, delivered in 4 reachable states; "
                                              "non-trivial: every variant (distinct bytes)")
-        VARIANTS[:] = corrupted_variants()
-        tasks = [(pre, lo, hi) for pre in PRE_STATES for lo, hi in par.chunks(len(VARIANTS), 16)]
+        VARIANTS[:] = corrupted_variants(two_bit=thorough)
+        tasks = [(pre, lo, hi) for pre in PRE_STATES for lo, hi in par.chunks(len(VARIANTS), 64 if thorough else 16)]
         s.declared = len(VARIANTS) * len(PRE_STATES)
         for acc in par.pmap(w_malformed, tasks):
             s.merge(acc)
